@@ -29,7 +29,8 @@ RECURSIVE Stream(_, _, _, _, _)
 Stream(log, i, v, W, latest) ==
   IF i > Len(log) THEN <<>>
   ELSE LET e == log[i] IN
-       IF e[1] # "bind" THEN Stream(log, i + 1, v, W, latest)
+       IF e[1] = "second-call" THEN Stream(log, i + 1, v, W, [n \in DOMAIN latest |-> "?"])   \* a new activation starts unbound
+       ELSE IF e[1] # "bind" THEN Stream(log, i + 1, v, W, latest)
        ELSE LET l2 == [latest EXCEPT ![e[2]] = e[3]]
                 here == IF e[2] = v
                         THEN << {<<v, e[3]>>} \cup { <<w, l2[w]>> : w \in {x \in W : l2[x] # "?" /\ x # v} } >>
